@@ -294,14 +294,30 @@ def model_facts(sig, api, rnd, nh, k):
     members = sig.models[model]
     others = [r for r in api["insert"] if r not in members and not r.startswith(pre)
               and not any(c in (model, mor) for c in sig.rels[r]["cols"])]
+    # the objects named by constants are the ones the global rules talk about: half of the fact sets connect
+    # two of them by a morphism, so that what a rule derives at one is inherited by the other
+    consts = [f for f in api["define"] if sig.rels[f]["cols"] == [model]]
+    if len(consts) >= 2 and nh[mor] >= 1 and rnd.random() < 0.5:
+        first = nh[model] - len(consts)
+        a, b = rnd.sample(range(first, nh[model]), 2)
+        m = rnd.randrange(nh[mor])
+        dom[m], cod[m] = a, b
+        two = [step_insert(pre + "dom", [m, a]), step_insert(pre + "cod", [m, b])]
+        rnd.shuffle(two)
+        facts += two
+        if others:
+            rel = rnd.choice(others)
+            args = rand_args(rnd, sig, nh, sig.rels[rel]["cols"])
+            if args is not None:
+                facts.append(step_insert(rel, args))
     for _ in range(k):
         r = rnd.random()
-        if r < 0.45 and members:
+        if r < 0.40 and members:
             rel = rnd.choice(members)
             args = rand_args(rnd, sig, nh, sig.rels[rel]["cols"])
             if args is not None:
                 facts.append(step_insert(rel, args))
-        elif r < 0.9:
+        elif r < 0.75:
             m = rnd.randrange(nh[mor])
             which = rnd.choice(["dom", "cod"])
             tab = dom if which == "dom" else cod
